@@ -70,7 +70,8 @@ def configs(tier):
                 out.append(dict(kind='phase', phase=ph, cause=cause))
         else:
             out.append(dict(kind='phase', phase=ph, cause=None))
-    out += [dict(c, persist=True) for c in out if c['phase'] in ('running', 'sync-init', 'async-init', 'built', 'finished')]
+    out += [dict(c, persist=True) for c in out
+            if tier != 'quick' or c['phase'] in ('running', 'sync-init', 'async-init', 'built', 'finished')]
     # an error inside the simulation task (failing output function, unstable network, failing
     # monitored task): from the moment it happened - in every following loop iteration - the
     # circuit is not running any more
